@@ -217,7 +217,7 @@ def _exhaustive(case: dict) -> dict:
         keys.add(f"exh:{spec['name']}:{case['cut']}:{hash(tuple(trail)) & 0xFFFFFFF:x}")
 
     def explore(path: str, ledger: list, withheld: dict, depth: int, trail: list) -> None:
-        w = World(path=path, ledger=[dict(r) for r in ledger])
+        w = World(path=path, ledger=[dict(r) for r in ledger], base_time=os.path.getmtime(path))
         w.owns_file = False  # inner nodes are copied from; the whole directory is removed at the end
         w.withheld = dict(withheld)
         w.wf_id = w._exec_side("SELECT id FROM pipeline_executions LIMIT 1").fetchone()[0]
@@ -247,8 +247,9 @@ def _exhaustive(case: dict) -> dict:
             for rid, ty, ack in options:
                 counter[0] += 1
                 child = os.path.join(tmpd, f"n{counter[0]}.db")
+                src_time = os.path.getmtime(path)
                 shutil.copyfile(path, child)
-                cw = World(path=child, ledger=[dict(r) for r in base_ledger])
+                cw = World(path=child, ledger=[dict(r) for r in base_ledger], base_time=src_time)
                 cw.owns_file = True
                 cw.withheld = dict(base_withheld)
                 cw.wf_id = cw._exec_side("SELECT id FROM pipeline_executions LIMIT 1").fetchone()[0]
